@@ -47,6 +47,7 @@ def gen_case(rng: random.Random):
     exact = rng.random() < 0.5
     case = {"kind": kind, "nd": nd, "T": T, "shape": shape, "scale": scale, "iou": False,
             "exact": exact}
+    case["far"] = kind == "points" and rng.random() < 0.15
     dets = []  # (t, cells) or (t, point)
     label = 1
     # label dtype and value range: narrow unsigned types with values up to their maximum
@@ -64,6 +65,10 @@ def gen_case(rng: random.Random):
             if kind == "points":
                 p = [rng.randrange(s) for s in shape] if exact else \
                     [round(rng.uniform(0, s), 2) for s in shape]
+                if case.get("far"):
+                    # world coordinates far from the origin (e.g. nanometres): exactly
+                    # representable in double precision, not in single precision
+                    p = [x + 40_000_000.0 for x in p]
                 dets.append({"t": t, "p": p})
             else:
                 # exact: single pixel or 3^n box fully inside (integer centroid)
@@ -234,6 +239,87 @@ def judge(case):
     return out, ncmp
 
 
+def judge_multihyp(rng, acc):
+    """Several segmentation hypotheses: labels made unique, nodes extracted per hypothesis,
+    graphs composed, candidate edges and IoU added with multiseg=True (the documented
+    multi-hypothesis workflow, assembled from the public helpers)."""
+    import networkx as nx
+
+    from funtracks.candidate_graph.iou import add_iou
+    from funtracks.candidate_graph.utils import add_cand_edges, nodes_from_segmentation
+
+    nd = rng.choice([2, 2, 3])
+    H, T = rng.randint(2, 3), rng.randint(2, 4)
+    shape = (8, 8) if nd == 2 else (3, 5, 5)
+    seg = np.zeros((H, T, *shape), dtype=np.int64)
+    lab = 0
+    det = {}  # label -> (h, t, slices)
+    for h in range(H):
+        for t in range(T):
+            occ = np.zeros(shape, bool)
+            for _ in range(rng.randint(0, 3)):
+                c0 = [rng.randrange(0, s - 1) for s in shape]
+                ext = [rng.choice([1, 2, 3]) for _ in shape]
+                sl = tuple(slice(x, min(x + e, s)) for x, e, s in zip(c0, ext, shape))
+                if occ[sl].any():
+                    continue
+                occ[sl] = True
+                lab += 1
+                seg[h, t][sl] = lab
+                det[lab] = (h, t, sl)
+    r = round(rng.uniform(1.0, 6.0), 3)
+    out = []
+    with warnings.catch_warnings():
+        warnings.simplefilter("ignore")
+        try:
+            G = nx.DiGraph()
+            nfd: dict = {}
+            for h in range(H):
+                g_h, d_h = nodes_from_segmentation(seg[h])
+                G = nx.compose(G, g_h)
+                for t, ns in d_h.items():
+                    nfd.setdefault(t, []).extend(ns)
+            add_cand_edges(G, r, nfd)
+            add_iou(G, seg, nfd, multiseg=True)
+        except Exception as e:
+            return [("raised", f"multi-hypothesis workflow: {type(e).__name__}: {e}",
+                     f"C18/multihyp/raised/{type(e).__name__}")], 0
+    ncmp = 0
+    if set(G.nodes) != set(det):
+        return [("nodes", f"multi-hypothesis node set {sorted(G.nodes)} != {sorted(det)}",
+                 "C18/multihyp/nodes")], 1
+    cen = {l: [(sl_.start + sl_.stop - 1) / 2.0 for sl_ in sl] for l, (_, _, sl) in det.items()}
+    for a, (ha, ta, _) in det.items():
+        for b, (hb, tb, _) in det.items():
+            if a == b:
+                continue
+            d = sum((x - y) ** 2 for x, y in zip(cen[a], cen[b])) ** 0.5
+            ncmp += 1
+            want = tb == ta + 1 and d <= r
+            if tb == ta + 1 and abs(d - r) <= 1e-9 * max(r, 1.0):
+                continue
+            if want != G.has_edge(a, b):
+                out.append(("edges", f"multi-hypothesis: edge ({a},{b}) hyp {ha}->{hb} frames "
+                            f"{ta}->{tb} d={d:.3f} r={r}: present={G.has_edge(a, b)}",
+                            "C18/multihyp/edges"))
+                return out, ncmp
+            if want:
+                A = seg[ha, ta] == a
+                B = seg[hb, tb] == b
+                exp = float((A & B).sum()) / float((A | B).sum())
+                gotv = G.edges[(a, b)].get("iou")
+                ncmp += 1
+                if gotv is None or not O.close(gotv, exp, rel=1e-12, abs_=1e-15):
+                    out.append(("iou", f"multi-hypothesis edge ({a},{b}) hypotheses {ha}->{hb}: "
+                                f"iou {gotv!r} != {exp!r}", "C18/multihyp/iou"))
+                    return out, ncmp
+    return out, ncmp
+
+
+def _ser(state):
+    return [state[0], list(state[1]), state[2]]
+
+
 def plan(tier, seed):
     n = 60000 if tier == "quick" else 400000
     return [{"kind": "cases", "n": n // 16, "seed": common.seed_for(PROP, tier, seed, i)}
@@ -244,7 +330,19 @@ def run_shard(spec):
     rng = random.Random(spec["seed"])
     acc = common.new_acc()
     for i in range(spec["n"]):
+        if i % 12 == 0:
+            st = rng.getstate()
+            probs, n = judge_multihyp(rng, acc)
+            acc["evaluations"] += max(n, 1)
+            acc["counters"]["multi-hypothesis-cases"] = \
+                acc["counters"].get("multi-hypothesis-cases", 0) + 1
+            for clause, what, key in probs[:1]:
+                acc["violations"].append({"clause": clause, "what": what, "key": key,
+                                          "replay": {"multihyp_rng_state": _ser(st)}})
         case = gen_case(rng)
+        if case.get("far"):
+            acc["counters"]["cases-far-from-origin"] = \
+                acc["counters"].get("cases-far-from-origin", 0) + 1
         if rng.random() < 0.4:
             pick_exact_radius(case, rng)
         probs, n = judge(case)
@@ -273,9 +371,15 @@ def run_shard(spec):
 
 def floors(tier):
     return {"cases": 1500, "cases-with-inner-gap": 200, "cases-radius-on-distance": 200,
-            "cases-iou": 200}
+            "cases-iou": 200, "multi-hypothesis-cases": 300, "cases-far-from-origin": 100}
 
 
 def replay(doc):
+    if "multihyp_rng_state" in doc:
+        st = doc["multihyp_rng_state"]
+        rng = random.Random()
+        rng.setstate((st[0], tuple(st[1]), st[2]))
+        probs, _ = judge_multihyp(rng, common.new_acc())
+        return [{"clause": c, "what": w, "key": k} for c, w, k in probs]
     probs, _ = judge(doc["case"])
     return [{"clause": c, "what": w, "key": k} for c, w, k in probs]
